@@ -28,7 +28,7 @@ def _funcs():
             m.VbsReader.__next__, m.IpmReader.__next__, m.Unblock1014.read]
 
 
-def total(pick, enc, hexbm, nmax, mti_opaque=False, unconfigured=None, bad_hex=False):
+def total(pick, enc, hexbm, nmax, mti_opaque=False, unconfigured=None, bad_hex=False, cfgmode=None):
     def h():
         core.FUEL.set(nmax + 12)
         iso = M().iso8583
@@ -50,11 +50,13 @@ def total(pick, enc, hexbm, nmax, mti_opaque=False, unconfigured=None, bad_hex=F
         msg = cat('b', head, bm, data)
 
         def rp():
-            return {'kind': 'loads', 'args': {'data': witness_bytes(msg), 'enc': enc, 'hexbm': hexbm}}
+            return {'kind': 'loads', 'args': {'data': witness_bytes(msg), 'enc': enc, 'hexbm': hexbm, 'cfgmode': cfgmode}}
         core.set_fallback(rp, 'C07/concretised')
+        from .c07_replay import caller_config
+        cfg = caller_config(iso, cfgmode)
         with guard('loads', 'C07/exception', rp, allow=(iso.Iso8583DataError,), hang_key='C07/hang'):
             try:
-                iso.loads(msg, encoding=enc, hex_bitmap=hexbm)
+                iso.loads(msg, encoding=enc, hex_bitmap=hexbm, iso_config=cfg)
                 res = 'dict'
             except iso.Iso8583DataError:
                 res = 'Iso8583DataError'
@@ -360,6 +362,11 @@ def obligations(tier):
     obs.append(Ob('msg/unconfigured-bit', total(lambda: choose('bits', [[2], []]), 'latin_1', False, 8,
                                                 unconfigured=None), 60, 'placeholder', _funcs))
     obs[-1] = Ob('msg/unconfigured-bit', total(lambda: [2], 'latin_1', False, 8, unconfigured=7), 60, 'bit 7 (no configuration) set', _funcs)
+    obs.append(Ob('msg/edited-config', total(lambda: choose('bits', [[2, 38], [3, 38], [38], [2, 3, 41], [14, 38], [3, 14, 38], [2, 3]]), 'latin_1', False, 16, cfgmode='edited'), 300,
+                  'a caller configuration that was used for two decodes and then edited in place (DE38 deleted, DE3 replaced, DE2 changed, DE41 added): '
+                  'a bit that is no longer configured is the library error like any other unconfigured bit', _funcs))
+    obs.append(Ob('msg/pan-processor-config', total(lambda: choose('bits', [[2], [2, 3]]), 'latin_1', False, 24, cfgmode='pan'), 300,
+                  'caller configuration with the documented PAN processor on DE2: every declared length 0..99, card numbers shorter than ten characters included', _funcs))
     obs.append(Ob('msg/non-hex-bitmap', total(lambda: [2], 'latin_1', True, 6, bad_hex=True), 60, 'hex bitmap = 32 opaque characters', _funcs))
     for enc, hexbm in (('latin_1', False), ('latin_1', True), ('ascii', False)):
         obs.append(Ob('msg/short/%s/%s' % (enc, 'hex' if hexbm else 'bin'), short(enc, hexbm), 120, 'whole message opaque, total length 0..45', _funcs))
